@@ -1,7 +1,7 @@
 // libdecode: "a direct library decode done by the checker" (C18 oracle).
 // Decodes a file with the tree's liblzma through lzma_code(), single-threaded,
 // one call with all input, and reports what the library delivered.
-//   libdecode <file> <format: auto|xz|lzma|lzip> <single_stream 0|1> <ignore_check 0|1> <outfile>
+//   libdecode <file> <format: auto|xz|lzma|lzip> <single_stream 0|1> <ignore_check 0|1> <outfile> [chunk]
 // stdout: "status <lzma_ret> total_in <n> total_out <n> unsupported_check <0|1>"
 #include <lzma.h>
 #include <stdio.h>
@@ -34,6 +34,27 @@ int main(int argc, char **argv)
 	static unsigned char buf[1 << 20];
 	s.next_in = in; s.avail_in = (size_t)n;
 	int unsupported = 0;
+	size_t chunk = argc > 6 ? (size_t)atol(argv[6]) : 0;
+	if (chunk > 0 && chunk <= sizeof buf) {
+		// the tools' buffer discipline: input in chunks of `chunk` bytes with
+		// LZMA_RUN until the end of the file is seen, an output buffer of
+		// `chunk` bytes written out when full and at the end
+		size_t pos = 0;
+		s.avail_in = 0; s.next_out = buf; s.avail_out = chunk;
+		lzma_action act = LZMA_RUN;
+		for (;;) {
+			if (s.avail_in == 0 && act == LZMA_RUN) {
+				size_t k = (size_t)n - pos < chunk ? (size_t)n - pos : chunk;
+				s.next_in = in + pos; s.avail_in = k; pos += k;
+				if (k < chunk) act = LZMA_FINISH;
+			}
+			r = lzma_code(&s, act);
+			if (s.avail_out == 0) { fwrite(buf, 1, chunk, o); s.next_out = buf; s.avail_out = chunk; }
+			if (r == LZMA_UNSUPPORTED_CHECK) { unsupported = 1; continue; }
+			if (r != LZMA_OK) break;
+		}
+		fwrite(buf, 1, chunk - s.avail_out, o);
+	} else
 	for (;;) {
 		s.next_out = buf; s.avail_out = sizeof buf;
 		r = lzma_code(&s, LZMA_FINISH);
